@@ -442,7 +442,8 @@ class World:
                 self.op_attempts[(kind, idx)] = a
             self.log(kind + "_attempt", idx, a)
             if a <= j:
-                exc = InjectedFault(f"flaky {kind} of {idx}: attempt {a} fails")
+                exc_type = EXC_TYPES.get(getattr(self, "flaky_exc", None), InjectedFault)
+                exc = exc_type(f"flaky {kind} of {idx}: attempt {a} fails")
                 self.raised.setdefault((kind, idx), []).append(exc)
                 self.log(kind + "_raise", idx, type(exc).__name__)
                 raise exc
